@@ -12,6 +12,22 @@ CHECKS = {
    technique="Lean 4 theorems over a regenerated model (translator) + differential correspondence vs Go regexp"),
 }
 
+def tv(text, ref, note):
+    return dict(category="translation_validation", text=text, design_ref=ref, note=note,
+                technique="differential correspondence of a hand-written Lean 4 model against the real code + property oracles (theorems pending)")
+
+TV_NOTE = "The Lean port is tied to the code only on the generated inputs reported in the evidence; ANTLR, protojson and the Go runtime are parameters."
+CHECKS.update({
+ "C01": tv("Correspondence: real DSL parser vs Lean (pre-pass port + listener port walking the real parse tree) and real printer vs Lean printer port, on generated models under random grammatical layouts; metamorphic round-trip oracle (d->m1->d2->m2->d3, both API paths) on the real code. Theorems about the ports are not yet part of this check.", "DESIGN.md §6.1", TV_NOTE),
+ "C02": tv("Correspondence real printer vs Lean printer port on all rewrite trees <= 7 nodes (exhaustive) plus random models; oracles: success <=> independent path-based expressibility, error kind, parse(print m) = normalize m, IsRelationAssignable <=> '[' printed.", "DESIGN.md §6.2", TV_NOTE),
+ "C03": tv("An independent grammar-mirroring renderer writes generated models and module files in random layouts; oracle: the real parser accepts and returns exactly the model written; correspondence: real parser vs Lean pre-pass + listener port on the real parse tree.", "DESIGN.md §6.3", TV_NOTE),
+ "C07": tv("Correspondence real merger vs Lean port on generated module sets with injected conflicts; oracles: success <=> conflict-free, result == attributed union, offending file named, GetModuleForObjectTypeRelation.", "DESIGN.md §6.7", TV_NOTE),
+ "C09": tv("11-kind catalogue of structural violations injected at random sites/depths/layouts; oracle: non-nil error and nil model; correspondence real parser vs Lean listener port (listener-raised errors incl. positions).", "DESIGN.md §6.9", TV_NOTE),
+ "C12": tv("Each module set merged repeatedly and under permutations of the file list on the real code; identical outcomes / permutation-invariant verdict; correspondence with the (schedule-free) Lean port for every permutation.", "DESIGN.md §6.12", TV_NOTE),
+ "C14": tv("Real printer vs Lean printer port for both values of the source-information option; oracles: byte equality across repeated calls, shuffled JSON key order, permuted type definitions; strip(comments) == plain; both parse to the same model.", "DESIGN.md §6.14", TV_NOTE),
+ "C16": tv("Bounds of every reported syntax error on rejected documents; exact (line, column) of listener-raised errors and of merge conflicts against positions recorded by the independent renderer; correspondence with the Lean ports including positions.", "DESIGN.md §6.16", TV_NOTE),
+})
+
 NOT_YET = {}
 
 def main():
